@@ -200,6 +200,17 @@ func (e *Exec) exportPoint() {
 	}
 }
 
+// yieldPoint gives the harness a turn right after the main goroutine released
+// a metric's lock (a point at which another goroutine's operation on the same
+// metric may run): the harness function verifYieldPoint, if the job has one.
+func (e *Exec) yieldPoint(mu value) {
+	h := e.sh.entry.Pkg.Func("verifYieldPoint")
+	if h == nil || e.cur.id != 0 || !strings.HasSuffix(e.race.names[mutexPtr(mu)], "Metric.RWMutex") {
+		return
+	}
+	e.call(h, nil)
+}
+
 func init() {
 	stubs[promPkg+".NewDesc"] = func(e *Exec, fn *ssa.Function, args []value) value {
 		ls, _ := args[2].([]value)
